@@ -440,8 +440,82 @@ func c15IsDataWrite(p []byte, server bool) bool {
 	return false
 }
 
+// c15Timeout: a control sender whose deadline expires while a data frame is stalled in the transport gives up
+// WITHOUT touching the lock; a later control sender still has to wait for the data frame to finish.
+func c15Timeout(c *h.Ctx, server bool, nframes int, extra bool) {
+	in := fmt.Sprintf("wsconc timeout role=%s frames=%d extra=%v: data frame stalled; WriteControl(deadline 30ms) times out; second WriteControl waits", roleStr(server), nframes, extra)
+	tc := newSchedConn()
+	conn := ws.VerifNewConn(tc, server, 0, c15B, false)
+	dataRun, payload := c15DataRun(server, nframes, extra)
+	dataDone := make(chan error, 1)
+	go func() { dataDone <- dataRun(conn) }()
+	var first *parkedWrite
+	select {
+	case first = <-tc.parked:
+	case <-time.After(2 * time.Second):
+		c.Hold(false, "C15.timeout.setup", in, "data writer never reached the transport", "a parked write")
+		return
+	}
+	// A: deadline expires while the data writer holds the write lock inside the transport
+	errA := conn.WriteControl(ws.PingMessage, []byte("A"), time.Now().Add(30*time.Millisecond))
+	ne, isNet := errA.(net.Error)
+	c.Hold(errA != nil && isNet && ne.Timeout(), "C15.timeout.returns_timeout", in, fmt.Sprint(errA), "a timeout error")
+	// B: generous deadline; it must WAIT: no transport write may appear while the data frame is still stalled
+	doneB := make(chan error, 1)
+	go func() { doneB <- conn.WriteControl(ws.PingMessage, []byte("B"), time.Now().Add(5*time.Second)) }()
+	intruded := false
+	select {
+	case pw := <-tc.parked:
+		intruded = true // somebody wrote to the transport while the data writer is parked inside its own frame
+		pw.grant <- len(pw.p)
+	case <-time.After(120 * time.Millisecond):
+	}
+	c.Hold(!intruded, "C15_wire.control_inside_data_frame", in, "a control frame reached the transport while a data frame was in progress (lock released by the timed-out sender)", "the second sender waits")
+	// let everything finish
+	first.grant <- len(first.p)
+	deadline := time.After(3 * time.Second)
+	var errData, errB error
+	gotData, gotB := false, false
+	for !(gotData && gotB) {
+		select {
+		case pw := <-tc.parked:
+			pw.grant <- len(pw.p)
+		case errData = <-dataDone:
+			gotData = true
+		case errB = <-doneB:
+			gotB = true
+		case <-deadline:
+			c.Hold(false, "C15.timeout.completes", in, fmt.Sprintf("blocked: data returned=%v, second control returned=%v", gotData, gotB), "both return")
+			return
+		}
+	}
+	c.Hold(errData == nil && errB == nil, "C15.timeout.results", in, fmt.Sprintf("data=%v B=%v", errData, errB), "nil nil")
+	wire := tc.snapshot()
+	rep := c.O.Call("ws.parse", roleStr(server), "0", h.Hex(wire))
+	okWire := strings.HasPrefix(rep, "ok ")
+	var got []byte
+	npings := 0
+	if okWire {
+		for _, f := range wsParseFrames(rep[3:]) {
+			switch {
+			case f.Op <= 2:
+				got = append(got, h.UnHex(f.Payload)...)
+			case f.Op == 9:
+				npings++
+			}
+		}
+	}
+	c.Hold(okWire && bytes.Equal(got, payload) && npings == 1, "C15_wire.whole_frames", in, h.Trunc(rep, 200), "the data message intact, then exactly one ping (B); A left nothing on the wire")
+	c.Case(fmt.Sprintf("timeout/%s/frames=%d/extra=%v", roleStr(server), nframes, extra), in, true)
+}
+
 func c15(c *h.Ctx) {
 	r := c.R
+	for _, server := range []bool{true, false} {
+		for nframes := 1; nframes <= 2; nframes++ {
+			c15Timeout(c, server, nframes, server)
+		}
+	}
 	kinds := []string{"ping", "pong", "close", "xclose", "xclose-partial"}
 	run := 0
 	for _, server := range []bool{true, false} {
